@@ -75,11 +75,17 @@ class World:
                     self.classes[c['name']].eStructuralFeatures.append(f)
                 byname[(c['name'], fd['name'])] = f
                 self.feats.append((c['name'], fd, f))
+        late_opp = set(case.get('late_opposite') or [])
+        self._late_opp = []
         for c in mm['classes']:
             for fd in c['features']:
                 if fd.get('opposite'):
                     oc, on = fd['opposite']
-                    byname[(c['name'], fd['name'])].eOpposite = byname[(oc, on)]
+                    if fd['name'] in late_opp:
+                        # the two ends exist and are READ before they are declared each other's opposite (_grow)
+                        self._late_opp.append((byname[(c['name'], fd['name'])], byname[(oc, on)]))
+                    else:
+                        byname[(c['name'], fd['name'])].eOpposite = byname[(oc, on)]
         for c in mm['classes']:
             for opd in c.get('operations', []):
                 self.classes[c['name']].eOperations.append(
@@ -107,6 +113,11 @@ class World:
             for i, r in enumerate(self.res):
                 ob = EObserver(notifyChanged=self._mk_obs(('r', i)))
                 r.listeners.append(ob)
+        if self._late_opp:
+            for o in self.objs:
+                for f in o.eClass.eAllStructuralFeatures():
+                    o.eGet(f)
+                    getattr(o, f.name)
         if self._late:
             # the classes are USED before they grow: every reflective view is asked once on every object
             for o in self.objs:
@@ -165,6 +176,9 @@ class World:
         if t == 'k':          # a classifier object offered as a VALUE
             if v[1] < 0:
                 return self.E.EString
+            if v[1] >= 100:       # the Python class of a model class
+                c = list(self.classes.values())[v[1] - 100] if isinstance(self.classes, dict) else self.classes[v[1] - 100]
+                return c.python_class if isinstance(c, self.E.EClass) else c
             c = list(self.classes.values())[v[1]] if isinstance(self.classes, dict) else self.classes[v[1]]
             return getattr(c, 'eClass', c) if not isinstance(c, self.E.EClass) else c
         raise AssertionError(v)
@@ -209,6 +223,9 @@ class World:
         for cn, fd, f in self._late:
             self.classes[cn].eStructuralFeatures.append(f)
         self._late = []
+        for f, g in getattr(self, '_late_opp', None) or ():
+            f.eOpposite = g
+        self._late_opp = []
 
     def apply(self, op):
         if getattr(self, '_late', None) and (
@@ -216,12 +233,22 @@ class World:
                 or (op[0] not in ('rappend', 'rremove', 'rextend') and len(op) > 2 and isinstance(op[2], int)
                     and any(self.feats[op[2]][2] is f for _, _, f in self._late))):
             self._grow()
+        if getattr(self, '_late_opp', None) and op[0] not in ('rappend', 'rremove', 'rextend', 'read'):
+            self._grow()          # before the first call that changes anything
         try:
             return (0, self._apply(op))
         except Exception as e:   # noqa
             return (exn_code(e), None)
 
     def _coll(self, op):
+        if self.case.get('hold'):
+            # the collection object is obtained ONCE and kept, as a program holding `files = folder.files` does:
+            # every later call of the history goes through that same object
+            held = self.__dict__.setdefault('_held', {})
+            key = (op[1], op[2])
+            if key not in held:
+                held[key] = self.objs[op[1]].eGet(self.feat(op[2]).name)
+            return held[key]
         return self.objs[op[1]].eGet(self.feat(op[2]).name)
 
     def _apply(self, op):
